@@ -86,6 +86,22 @@ class C07World(WalletWorld):
                 sp = self.chain.spent_by.get(op)
                 if sp and sp[0] not in wi.unacked and sp[0] not in wi.sent and sp[0] != rt.txid():
                     w.probe('input_spent_on_chain_unknown_to_wallet')
+        # ... and the selection constraints of the request
+        rx = getattr(self, 'request_extra', {}) if request == 'send' and stage == 'created' else {}
+        if rx.get('max_utxos') is not None and len(ops) > rx['max_utxos']:
+            w.violation('max_utxos_exceeded', sig, '%d inputs with max_utxos=%s' % (len(ops), rx['max_utxos']))
+        if rx.get('input_key_id') is not None:
+            by_op = {(u['txid'], u['output_n']): u['key_id'] for u in utxos_before}
+            other = [op for op in ops if by_op.get(op) != rx['input_key_id']]
+            if other:
+                w.violation('input_key_id_ignored', sig, 'inputs %s do not belong to key %s' % (other, rx['input_key_id']))
+        if rx.get('locktime') and rt.locktime != rx['locktime']:
+            w.violation('locktime_ignored', sig, 'asked locktime %s, transaction has %s' % (rx['locktime'], rt.locktime))
+        if rx.get('random_output_order') is False and request == 'send':
+            want_scripts = [rcodec.address_to_script(a, self.network) for a, v in outs if v is not None]
+            got_scripts = [o.script_pubkey for o in rt.vout][:len(want_scripts)]
+            if got_scripts != want_scripts:
+                w.probe('fixed_output_order_not_kept')
         # 2. recipients and change
         want = []
         for addr, amt in outs:
